@@ -110,18 +110,18 @@ cdef class ExtendedZOrderNNPS(ZOrderNNPS):
     cdef inline int _h_mask_exact(self, int* x, int* y, int* z) noexcept nogil
 
     cdef int _neighbor_boxes_func(self, int i, int j, int k,
-            int* current_key_to_idx, uint32_t* current_cids,
-            double* current_hmax, int num_particles,
+            int* current_key_to_idx, uint32_t* current_pids,
+            uint32_t* current_cids, double* current_hmax, int num_particles,
             int* found_indices, double h)
 
     cdef int _neighbor_boxes_asym(self, int i, int j, int k,
-            int* current_key_to_idx, uint32_t* current_cids,
-            double* current_hmax, int num_particles,
+            int* current_key_to_idx, uint32_t* current_pids,
+            uint32_t* current_cids, double* current_hmax, int num_particles,
             int* found_indices, double h) noexcept nogil
 
     cdef int _neighbor_boxes_sym(self, int i, int j, int k,
-            int* current_key_to_idx, uint32_t* current_cids,
-            double* current_hmax, int num_particles,
+            int* current_key_to_idx, uint32_t* current_pids,
+            uint32_t* current_cids, double* current_hmax, int num_particles,
             int* found_indices, double h) noexcept nogil
 
     cdef void _fill_nbr_boxes(self)
